@@ -211,11 +211,12 @@ func (x vfHandle) emit(set bool, d string) {
 }
 
 type vfMetric struct {
-	kind string
-	r    *Registry
-	c    *Counter
-	g    *Gauge
-	h    *Histogram
+	decoy bool
+	kind  string
+	r     *Registry
+	c     *Counter
+	g     *Gauge
+	h     *Histogram
 }
 
 func vfNewMetric(kind string, cap int, nlabels int, buckets []float64) *vfMetric {
@@ -317,20 +318,45 @@ func vfSampleVal(s Sample) string {
 // snapshot through the public path: AppendSnapshot incl. the internal drop metrics
 func (m *vfMetric) snapshot() string {
 	samples := m.r.AppendSnapshot(nil, SnapshotOptions{})
-	var series []string
+	var series, dseries []string
 	cnt, d, u, st, subs, sdrops := "?", "0", "0", "0", "?", []string{}
+	dc, dd, du := "?", "0", "0"
+	// the per-metric internal samples carry the metric name as their label: read the ones of THIS metric (a second metric of
+	// another kind lives in the same registry, see vfSeq) and report the other metric's separately
+	of := func(smp Sample) string {
+		if len(smp.Labels) == 1 && smp.Labels[0].Name == internalLabelMetric {
+			return smp.Labels[0].Value
+		}
+		return ""
+	}
 	for _, s := range samples {
 		switch s.Name {
 		case "vf.m":
 			series = append(series, vfLabelsTok(s.Labels)+"="+vfSampleVal(s))
+		case "vf.decoy":
+			dseries = append(dseries, vfLabelsTok(s.Labels)+"="+vfSampleVal(s))
 		case internalMetricSeriesTotal:
-			cnt = vfFloat(s.Value)
+			if of(s) == "vf.decoy" {
+				dc = vfFloat(s.Value)
+			} else {
+				cnt = vfFloat(s.Value)
+			}
 		case internalMetricCardinalityDrops:
-			d = vfFloat(s.Value)
+			if of(s) == "vf.decoy" {
+				dd = vfFloat(s.Value)
+			} else {
+				d = vfFloat(s.Value)
+			}
 		case internalMetricUnknownEmits:
-			u = vfFloat(s.Value)
+			if of(s) == "vf.decoy" {
+				du = vfFloat(s.Value)
+			} else {
+				u = vfFloat(s.Value)
+			}
 		case internalMetricStaleEmits:
-			st = vfFloat(s.Value)
+			if of(s) != "vf.decoy" {
+				st = vfFloat(s.Value)
+			}
 		case internalMetricSubscriptionsTotal:
 			subs = vfFloat(s.Value)
 		case internalMetricSubscriptionDrops:
@@ -339,7 +365,29 @@ func (m *vfMetric) snapshot() string {
 	}
 	sort.Strings(series)
 	sort.Strings(sdrops)
-	return "{" + strings.Join(series, ";") + "|c=" + cnt + "|d=" + d + "|u=" + u + "|st=" + st + "|subs=" + subs + "|sd=" + strings.Join(sdrops, ",") + "}"
+	sort.Strings(dseries)
+	other := ""
+	if m.decoy {
+		other = "|o=" + strings.Join(dseries, ";") + "/" + dc + "/" + dd + "/" + du
+	}
+	return "{" + strings.Join(series, ";") + "|c=" + cnt + "|d=" + d + "|u=" + u + "|st=" + st + "|subs=" + subs + "|sd=" + strings.Join(sdrops, ",") + other + "}"
+}
+
+// vfDecoy registers a SECOND metric of another kind in the same registry (cap 1), gives it one series, one emission through the
+// tombstone and one to an unknown tuple: per-metric state (series, cap, the three drop counters) must not leak between metrics.
+func (m *vfMetric) vfDecoy() {
+	m.decoy = true
+	if m.kind == "c" {
+		g, _ := m.r.RegisterGauge(GaugeOpts{Name: "vf.decoy", Help: "h", Labels: []string{"l0"}, MaxSeriesPerMetric: 1})
+		g.WithLabelValues("x").Set(3)
+		g.WithLabelValues("y").Set(5)
+		g.Set(7, "z")
+		return
+	}
+	c, _ := m.r.RegisterCounter(CounterOpts{Name: "vf.decoy", Help: "h", Labels: []string{"l0"}, MaxSeriesPerMetric: 1})
+	c.WithLabelValues("x").Add(3)
+	c.WithLabelValues("y").Add(5)
+	c.Add(7, "z")
 }
 
 func vfBuckets(tok string) []float64 {
@@ -376,6 +424,7 @@ func vfSeq(f []string) string {
 	nl, _ := strconv.Atoi(f[3])
 	m := vfNewMetric(kind, cap, nl, vfBuckets(f[4]))
 	defer m.r.Shutdown(context.Background())
+	m.vfDecoy()
 	var slots []vfHandle
 	var subs []*Subscription
 	var out []string
